@@ -29,6 +29,8 @@ type Config struct {
 	LogQueries bool
 }
 
+var traceSched = os.Getenv("SYMGO_TRACE") != ""
+
 type strTable struct {
 	mu    sync.Mutex
 	codes map[string]int64
@@ -91,6 +93,7 @@ type Explorer struct {
 
 // Worker owns a solver process and runs paths.
 type Worker struct {
+	notes  map[string]map[string]bool // worker-local bookkeeping, merged into the explorer at the end
 	ex     *Explorer
 	solver *Solver
 	prefix []int
@@ -109,6 +112,31 @@ func NewExplorer(prog *ssa.Program, cfg Config) *Explorer {
 		e.qlog = &queryLog{seen: map[string]string{}}
 	}
 	return e
+}
+
+func (w *Worker) note(kind, name string) {
+	if w.notes == nil {
+		w.notes = map[string]map[string]bool{}
+	}
+	if w.notes[kind] == nil {
+		w.notes[kind] = map[string]bool{}
+	}
+	w.notes[kind][name] = true
+}
+
+func (w *Worker) flushNotes() {
+	e := w.ex
+	e.mu.Lock()
+	defer e.mu.Unlock()
+	for n := range w.notes["intr"] {
+		e.intrUsed[n] = true
+	}
+	for n := range w.notes["split"] {
+		e.caseSplit[n] = true
+	}
+	for n := range w.notes["sym"] {
+		e.symbolicToEnd[n] = true
+	}
 }
 
 func (w *Worker) declsText() string {
@@ -275,9 +303,7 @@ func (w *Worker) concretize(m *Machine, s *Sym, what string) int64 {
 	if len(feas) == 0 {
 		m.fail("infeasible", "concretize")
 	}
-	w.ex.mu.Lock()
-	w.ex.caseSplit[what] = true
-	w.ex.mu.Unlock()
+	w.note("split", what)
 	for k := len(feas) - 1; k >= 1; k-- {
 		w.ex.push(append(append(make([]int, 0, len(w.taken)+1), w.taken...), int(feas[k])))
 	}
@@ -440,6 +466,25 @@ func (w *Worker) runPath(prefix []int) (end *PathEnd, m *Machine) {
 				break
 			}
 		}
+		if e.cfg.Mode != "seq" {
+			// partial-order reduction: steps between two visible operations are local (the race detector
+			// reports executions for which this is not true), so every runnable goroutine is advanced
+			// to its next visible operation before a scheduling decision is taken
+			for changed := true; changed; {
+				changed = false
+				for i := 0; i < len(m.gs); i++ {
+					g := m.gs[i]
+					if g.state == Runnable && !g.atVisible {
+						for g.state == Runnable {
+							if !m.stepSafe(g) {
+								break
+							}
+						}
+						changed = true
+					}
+				}
+			}
+		}
 		var runnable []*G
 		for _, g := range m.gs {
 			if g.state == Runnable {
@@ -490,6 +535,14 @@ func (w *Worker) runPath(prefix []int) (end *PathEnd, m *Machine) {
 			}
 			atomic.AddInt64(&e.nvisited, 1)
 		}
+		if traceSched {
+			var sb strings.Builder
+			for _, g := range ordered {
+				fr := m.top(g)
+				fmt.Fprintf(&sb, " g%d@%s", g.id, m.pos(fr.block.Instrs[fr.pc]))
+			}
+			fmt.Fprintln(os.Stderr, "SCHED", len(w.taken), sb.String())
+		}
 		k := w.choose(m, len(ordered), "sched")
 		next := ordered[k]
 		if cur != nil && cur.state == Runnable && next != cur {
@@ -503,6 +556,7 @@ func (e *Explorer) worker(id int, wg *sync.WaitGroup) {
 	defer wg.Done()
 	w := &Worker{ex: e, id: id, solver: NewSolver(e.cfg.SolverKind, &e.stats, e.qlog)}
 	defer w.solver.Close()
+	defer w.flushNotes()
 	for {
 		e.mu.Lock()
 		for len(e.work) == 0 && e.active > 0 && !e.stop {
